@@ -3118,7 +3118,27 @@ RESUME_VALIDATE_CERTS:
         }
         if (ssl->err != SSL_ALERT_NONE)
         {
-            break; /* The first alert is the logical one to send */
+            /* The first alert is the logical one to send, except that a
+               date, name or extension problem must not hide the fact that
+               a certificate further up could not be authenticated at all:
+               a callback that tolerates e.g. expiry would otherwise accept
+               a chain that does not lead to a trusted CA. */
+            if (ssl->err != SSL_ALERT_CERTIFICATE_EXPIRED &&
+                ssl->err != SSL_ALERT_CERTIFICATE_UNKNOWN &&
+                ssl->err != SSL_ALERT_ILLEGAL_PARAMETER)
+            {
+                break;
+            }
+            if (cert->authStatus != PS_CERT_AUTH_FAIL_SIG &&
+                cert->authStatus != PS_CERT_AUTH_FAIL_DN &&
+                cert->authStatus != PS_CERT_AUTH_FAIL_BC &&
+                cert->authStatus != PS_CERT_AUTH_FAIL_REVOKED &&
+                cert->authStatus != PS_CERT_AUTH_FAIL)
+            {
+                cert = cert->next;
+                continue;
+            }
+            ssl->err = SSL_ALERT_NONE; /* Replaced by the switch below */
         }
         switch (cert->authStatus)
         {
